@@ -385,6 +385,18 @@ def gen_device(tier: str) -> Iterator[dict]:
     two = common.script(["lcd = LCD(i2c_addr=39, cols=8, rows=2)", 'lcd.animate("scroll", 0, "abcdefghij", speed_ms=100, loop=True)', 'lcd.animate("blink", 1, "xy", speed_ms=50, loop=True)'], ['mon.write("u")'], prologue=PRO)
     runs = [{"passes": len(s), "adv": s, "t0": 0} for s in schedules(20, 50, 2 if tier == "thorough" else 1, False)]
     yield {"id": "A2:one-display", "space": "A", "src": two, "runs": runs, "anims": [{"style": "scroll", "len": 10, "loop": True, "speed": 100, "row": 0}, {"style": "blink", "len": 2, "loop": True, "speed": 50, "row": 1}], "geom": [8, 2], "lcds": 1}
+    # several animations of the SAME style at once (one display, two displays of one wiring): each keeps to its own text
+    for style in STYLES:
+        for loop_a, loop_b in ((True, True), (False, True), (False, False)):
+            src2 = common.script(["lcd = LCD(i2c_addr=39, cols=6, rows=2)", f'lcd.animate("{style}", 0, "abcdefgh", speed_ms=100, loop={loop_a})', f'lcd.animate("{style}", 1, "XY", speed_ms=100, loop={loop_b})'], ['mon.write("u")'], prologue=PRO)
+            yield {"id": f"A2s:{style}:one:{int(loop_a)}{int(loop_b)}", "space": "A", "src": src2, "runs": [{"passes": len(sch), "adv": sch, "t0": 0} for sch in schedules(30, 100, 1, False)],
+                   "anims": [{"style": style, "len": 8, "loop": loop_a, "speed": 100, "row": 0}, {"style": style, "len": 2, "loop": loop_b, "speed": 100, "row": 1}], "geom": [6, 2], "lcds": 1,
+                   "row_texts": {"0": "abcdefgh", "1": "XY"}, "no_background": True}
+            src3 = common.script(["lcd = LCD(i2c_addr=39, cols=6, rows=1)", "aux = LCD(i2c_addr=38, cols=6, rows=1)", f'lcd.animate("{style}", 0, "abcdefgh", speed_ms=100, loop={loop_a})',
+                                  f'aux.animate("{style}", 0, "XY", speed_ms=100, loop={loop_b})'], ['mon.write("u")'], prologue=PRO)
+            yield {"id": f"A2s:{style}:two:{int(loop_a)}{int(loop_b)}", "space": "A", "src": src3, "runs": [{"passes": len(sch), "adv": sch, "t0": 0} for sch in schedules(30, 100, 1, False)],
+                   "anims": [{"style": style, "len": 8, "loop": loop_a, "speed": 100, "row": 0}, {"style": style, "len": 2, "loop": loop_b, "speed": 100, "row": 0}], "geom": [6, 1], "lcds": 2,
+                   "lcd_texts": {"0": "abcdefgh", "1": "XY"}}
     two_d = common.script(["lcd = LCD(i2c_addr=39, cols=8, rows=2)", "aux = LCD(rs=30, en=31, d4=32, d5=33, d6=34, d7=35, cols=6, rows=1)",
                            'lcd.animate("bounce", 1, "ab", speed_ms=100, loop=True)', 'aux.animate("typewriter", 0, "hello", speed_ms=100, loop=False)'], ['mon.write("u")'], prologue=PRO)
     yield {"id": "A2:two-displays", "space": "A", "src": two_d, "runs": [{"passes": len(s), "adv": s, "t0": 0} for s in schedules(24, 100, 1, False)],
@@ -453,6 +465,24 @@ def device_monitor(case, run, dr) -> Optional[str]:
                         return f"display row {r} has {len(row)} cells"
                     if r not in anim_rows and row != "Z" * cols:
                         return f"animation on row {sorted(anim_rows)} modified row {r}: {row!r} (phase {ev.phase})"
+    if case.get("row_texts") or case.get("lcd_texts"):
+        from rmc.device import unhex_latin1
+
+        for ev in dr.events:
+            if ev.kind != "lcd_dump":
+                continue
+            cells = unhex_latin1(ev.args[1]).split("|")
+            if case.get("row_texts") and int(ev.args[0]) == 0:
+                for r, text in case["row_texts"].items():
+                    extra = set(cells[int(r)]) - set(text) - {" "}
+                    if extra:
+                        return f"row {r} (animating {text!r}) shows characters {sorted(extra)} of another text: {cells[int(r)]!r} (phase {ev.phase})"
+            if case.get("lcd_texts"):
+                text = case["lcd_texts"].get(str(int(ev.args[0])))
+                if text is not None:
+                    extra = set(cells[0]) - set(text) - {" "}
+                    if extra:
+                        return f"display {ev.args[0]} (animating {text!r}) shows characters {sorted(extra)} of another text: {cells[0]!r} (phase {ev.phase})"
     looping = [a for a in anims if a["loop"] and a["len"] > 0]
     clock = run.get("t0", 0)
     last_step_time: Optional[int] = None
